@@ -87,8 +87,15 @@ func oneRetry(line string) string {
 	n, _ := strconv.Atoi(f[1])
 	dus, _ := strconv.Atoi(f[2])
 	delay := time.Duration(dus) * time.Microsecond
+	// optional 4th field `gb=<k>`: in the fourth pass the request's k-th GetBody call (the one made before attempt k) fails
+	gbFail := 0
+	rest := f[3:]
+	if len(rest) > 0 && strings.HasPrefix(rest[0], "gb=") {
+		gbFail, _ = strconv.Atoi(rest[0][3:])
+		rest = rest[1:]
+	}
 	var script []outcome
-	for _, s := range f[3:] {
+	for _, s := range rest {
 		o, err := parseOutcome(s)
 		if err != nil {
 			return fmt.Sprintf("%s impl error %v\n", id, err)
@@ -101,9 +108,43 @@ func oneRetry(line string) string {
 	errs := map[error]int{}
 	var lastEnd time.Time
 	errKind := 0
+	var origReq *http.Request
+	var origCtx context.Context
+	var views []string
 	base := middleware.RoundTripper(func(req *http.Request) (*http.Response, error) {
 		now := time.Now()
 		i := calls
+		// which request object and which body this attempt is handed
+		v := "c"
+		if req == origReq {
+			v = "o"
+		}
+		switch {
+		case req.Body == nil || req.Body == http.NoBody:
+			v += "/nobody"
+		default:
+			b, rerr := io.ReadAll(req.Body)
+			switch {
+			case rerr != nil:
+				v += "/readerr"
+			case len(b) == 0:
+				v += "/drained"
+			case string(b) == wantBody:
+				v += "/full"
+			default:
+				v += "/other:" + string(b)
+			}
+		}
+		if req.Context() != origCtx {
+			v += "!ctx"
+		}
+		if origReq != nil && origReq.Header != nil && req.Header.Get("X-Verif") != "k" {
+			v += "!hdr"
+		}
+		if req.Method != origReq.Method || req.URL.String() != origReq.URL.String() {
+			v += "!line"
+		}
+		views = append(views, v)
 		if i > 0 && now.Sub(lastEnd) > delay+lateSlack {
 			// upper bound: the wait is d, not something else (a gap far beyond d is marked and only believed after it has been
 			// reproduced on sequential re-runs, see runRetry)
@@ -151,6 +192,7 @@ func oneRetry(line string) string {
 		}()
 		// a fresh request through the SAME middleware instance: the script starts over
 		trace = nil
+		views = nil
 		calls = 0
 		// the request's own context is no concern of the loop either (the wrapped transport decides what a done context
 		// means): live, cancelled before the request, or expiring during the first wait
@@ -169,15 +211,31 @@ func oneRetry(line string) string {
 		var req *http.Request
 		switch ctxMode {
 		case 1:
-			req, _ = http.NewRequestWithContext(ctx, "POST", "http://example.invalid/x", strings.NewReader(`{"a":1}`))
+			req, _ = http.NewRequestWithContext(ctx, "POST", "http://example.invalid/x", strings.NewReader(wantBody))
+		case 3:
+			// replayable body whose gbFail-th GetBody call reports an error (0 = never)
+			req, _ = http.NewRequestWithContext(ctx, "PATCH", "http://example.invalid/x?q=1", strings.NewReader(wantBody))
+			inner := req.GetBody
+			gbCalls := 0
+			req.GetBody = func() (io.ReadCloser, error) {
+				gbCalls++
+				if gbCalls == gbFail {
+					return nil, errors.New("scripted GetBody failure")
+				}
+				return inner()
+			}
 		case 2:
-			req, _ = http.NewRequestWithContext(ctx, "PUT", "http://example.invalid/x", io.NopCloser(strings.NewReader(`{"a":2}`)))
+			req, _ = http.NewRequestWithContext(ctx, "PUT", "http://example.invalid/x", io.NopCloser(strings.NewReader(wantBody)))
 			req.GetBody = nil
 			// a hand-built request as a mocked transport sees it: no Header map at all
 			req.Header = nil
 		default:
 			req, _ = http.NewRequestWithContext(ctx, "GET", "http://example.invalid/x", nil)
 		}
+		if req.Header != nil {
+			req.Header.Set("X-Verif", "k")
+		}
+		origReq, origCtx = req, req.Context()
 		resp, err := rt.RoundTrip(req)
 		rs, es := "nil", "nil"
 		if resp != nil {
@@ -218,14 +276,20 @@ func oneRetry(line string) string {
 		fmt.Fprintf(&sb, "%s impl calls%s %d\n", id, suffix, calls)
 		fmt.Fprintf(&sb, "%s impl ret%s resp=%s err=%s\n", id, suffix, rs, es)
 		fmt.Fprintf(&sb, "%s impl trace%s %s\n", id, suffix, strings.Join(trace, " "))
+		fmt.Fprintf(&sb, "%s impl views%s %s\n", id, suffix, strings.Join(views, " "))
 	}
 	one("", 0, 0)
 	// the middleware keeps no state between requests: a second and third request behave like the first -- whatever the
 	// kind of the transport errors and the state of the request's context
 	one("2", 1, 1)
 	one("3", 2, 2)
+	// fourth request: live context, replayable body, the gbFail-th GetBody call fails
+	one("4", 0, 3)
 	return sb.String()
 }
+
+// the request body of the passes that send one
+const wantBody = `{"a":1}`
 
 // a gap between two calls that exceeds d by more than this is "late"
 const lateSlack = 150 * time.Millisecond
